@@ -244,21 +244,24 @@ Section Steps.
   Variable digest : B -> D.
   Variable D_eqb : D -> D -> bool.
   Variable empty garbage : B.
+  Variable under : path -> path -> bool.
   Variable valid metrics_ok : disk B -> bool.
 
   Notation st := (st B).
   Notation prim := (prim B).
   Notation p_remove := (p_remove B).
-  Notation store := (store B empty garbage).
-  Notation store_all := (store_all B empty garbage).
+  Notation store := (store B empty garbage under).
+  Notation store_all := (store_all B empty garbage under).
   Notation remove_all := (remove_all B).
-  Notation restore := (restore B D digest D_eqb empty garbage).
+  Notation restore := (restore B D digest D_eqb empty garbage under).
   Notation clean_all := (clean_all B).
   Notation initialize_streams := (initialize_streams B).
   Notation reload := (reload B valid metrics_ok).
-  Notation rollback := (rollback B D digest D_eqb empty garbage valid metrics_ok).
-  Notation update := (update B D digest D_eqb empty garbage valid metrics_ok).
-  Notation save_all := (save_all B empty garbage).
+  Notation rollback := (rollback B D digest D_eqb empty garbage under valid metrics_ok).
+  Notation update := (update B D digest D_eqb empty garbage under valid metrics_ok).
+  Notation save_all := (save_all B empty garbage under).
+  Notation is_dir := (is_dir under).
+  Notation file_above := (file_above under).
 
   (* a file-system operation: never touches the engine, every arrival during
      it meets the current engine, it can only fail by the oracle, and once the
@@ -328,40 +331,165 @@ Section Steps.
     - split; [apply fsop_with_disk; exact Hf|]. split; [cbn; congruence|discriminate].
   Qed.
 
+  (* ---- the tree structure: what can block a store ---- *)
+
+  (* the store of [p] is blocked: a file stands where it needs a directory, or
+     it is itself a directory that holds files *)
+  Definition blocked (p : path) (d : disk B) : bool := file_above p d || is_dir p d.
+
+  (* the keys of a disk *)
+  Definition has (q : path) (d : disk B) : Prop := lookup q d <> None.
+
+  Lemma has_In q (d : disk B) : has q d <-> In q (map fst d).
+  Proof.
+    unfold has. split.
+    - intro H. destruct (in_dec path_eq_dec q (map fst d)) as [I|I]; [exact I|].
+      apply lookup_None_keys in I. contradiction.
+    - intros I H. apply lookup_None_keys in H. contradiction.
+  Qed.
+
+  Lemma existsb_keys (f : path -> bool) (d : disk B) :
+    existsb (fun e => f (fst e)) d = true <-> exists q, has q d /\ f q = true.
+  Proof.
+    rewrite existsb_exists. split.
+    - intros [[q c] [Hin Hf]]. exists q. split; [apply has_In, in_map_iff; exists (q, c); auto|exact Hf].
+    - intros [q [Hq Hf]]. apply has_In, in_map_iff in Hq as [[q' c] [E Hin]]. cbn in E; subst.
+      exists (q, c). auto.
+  Qed.
+
+  Lemma is_dir_spec p d : is_dir p d = true <-> exists q, has q d /\ q <> p /\ under p q = true.
+  Proof.
+    unfold Model.is_dir. rewrite (existsb_keys (fun k => negb (path_eqb p k) && under p k)). split.
+    - intros [q [Hq Hf]]. apply andb_true_iff in Hf as [N U]. exists q. split; [exact Hq|]. split; [|exact U].
+      apply negb_true_iff, path_eqb_neq in N. congruence.
+    - intros [q [Hq [N U]]]. exists q. split; [exact Hq|]. apply andb_true_iff. split; [|exact U].
+      apply negb_true_iff, path_eqb_neq. congruence.
+  Qed.
+
+  Lemma file_above_spec p d : file_above p d = true <-> exists q, has q d /\ q <> p /\ under q p = true.
+  Proof.
+    unfold Model.file_above. rewrite (existsb_keys (fun k => negb (path_eqb p k) && under k p)). split.
+    - intros [q [Hq Hf]]. apply andb_true_iff in Hf as [N U]. exists q. split; [exact Hq|]. split; [|exact U].
+      apply negb_true_iff, path_eqb_neq in N. congruence.
+    - intros [q [Hq [N U]]]. exists q. split; [exact Hq|]. apply andb_true_iff. split; [|exact U].
+      apply negb_true_iff, path_eqb_neq. congruence.
+  Qed.
+
+  Lemma blocked_spec p d :
+    blocked p d = true <-> exists q, has q d /\ q <> p /\ (under p q = true \/ under q p = true).
+  Proof.
+    unfold blocked. rewrite orb_true_iff, is_dir_spec, file_above_spec. split.
+    - intros [(q & H & N & U)|(q & H & N & U)]; exists q; auto.
+    - intros (q & H & N & [U|U]); [right|left]; exists q; auto.
+  Qed.
+
+  (* [blocked p] looks at the other files only *)
+  Lemma blocked_ext p a b :
+    (forall q, q <> p -> has q a <-> has q b) -> blocked p a = blocked p b.
+  Proof.
+    intro E.
+    assert (W : forall x y, (forall q, q <> p -> has q x <-> has q y) -> blocked p x = true -> blocked p y = true).
+    { intros x y Exy H. apply blocked_spec in H as (q & Hq & N & U). apply blocked_spec. exists q.
+      split; [apply (Exy q N); exact Hq|auto]. }
+    destruct (blocked p a) eqn:Ba; [symmetry; apply (W a b E Ba)|].
+    destruct (blocked p b) eqn:Bb; [|reflexivity].
+    rewrite (W b a) in Ba; [discriminate| |exact Bb]. intros q N. symmetry. apply E; exact N.
+  Qed.
+
+  Lemma blocked_split p d : blocked p d = false -> file_above p d = false /\ is_dir p d = false.
+  Proof. unfold blocked. intro H. apply orb_false_iff in H. exact H. Qed.
+
+  (* a file-system operation that may also be blocked: the engine is not
+     touched, arrivals meet the current engine, a silent oracle stays silent *)
+  Definition fsopw (s s' : st) : Prop :=
+    eng s' = eng s /\
+    (exists extra, seen s' = extra ++ seen s /\ Forall (fun e => e = eng s) extra) /\
+    (flt s = NoFault -> flt s' = NoFault).
+
+  Lemma fsop_fsopw s s' ok : fsop s s' ok -> fsopw s s'.
+  Proof. intros (E & X & Q & _). split; [exact E|]. split; [exact X|]. intro F; apply Q; exact F. Qed.
+
+  Lemma fsopw_refl s : fsopw s s.
+  Proof. apply (fsop_fsopw _ _ true), fsop_refl. Qed.
+
+  Lemma fsopw_trans s s1 s2 : fsopw s s1 -> fsopw s1 s2 -> fsopw s s2.
+  Proof.
+    intros (E1 & (x1 & S1 & F1) & Q1) (E2 & (x2 & S2 & F2) & Q2).
+    split; [congruence|]. split; [|intro Q; apply Q2, Q1; exact Q].
+    exists (x2 ++ x1). split; [rewrite S2, S1, app_assoc; reflexivity|].
+    apply Forall_app; split; [|exact F1].
+    eapply Forall_impl; [|exact F2]. cbn; intros e ->; exact E1.
+  Qed.
+
   Lemma store_spec p c s ok s' :
     store p c s = (ok, s') ->
-    fsop s s' ok /\
+    fsopw s s' /\
+    (flt s = NoFault -> ok = negb (blocked p (dsk s))) /\
+    (ok = false -> flt s' = NoFault \/ blocked p (dsk s) = true) /\
     (ok = true -> deq (dsk s') (set p c (dsk s))) /\
     (forall q, q <> p -> lookup q (dsk s') = lookup q (dsk s)).
   Proof.
     unfold Model.store.
     destruct (prim true s) as [f0 s0] eqn:P0. apply prim_spec in P0 as [D0 F0].
-    destruct f0; [intro H; inversion H; subst; split; [exact F0|split; [discriminate|intros; congruence]]|].
+    destruct f0.
+    { intro H; inversion H; subst. cbn [negb] in F0. split; [eapply fsop_fsopw; exact F0|].
+      split; [intro Q; destruct F0 as (_ & _ & Q0 & _); destruct (Q0 Q); discriminate|].
+      split; [intros _; left; destruct F0 as (_ & _ & _ & N0); apply N0; reflexivity|].
+      split; [discriminate|intros; congruence]. }
+    cbn [negb] in F0.
     destruct (p_remove true p s0) as [okr s1] eqn:P1. apply p_remove_spec in P1 as (F1 & R1t & R1f).
-    assert (F01 : fsop s s1 true /\ forall q, q <> p -> lookup q (dsk s1) = lookup q (dsk s)).
+    assert (F01 : fsop s s1 true /\ (forall q, q <> p -> lookup q (dsk s1) = lookup q (dsk s))).
     { split; [eapply fsop_ignore; eassumption|]. destruct okr.
       - intros q Hq. rewrite R1t, lookup_del by reflexivity.
         rewrite D0. destruct (path_eqb p q) eqn:E; [apply path_eqb_eq in E; congruence|reflexivity].
       - intros q _. rewrite R1f, D0 by reflexivity. reflexivity. }
     destruct F01 as [F01 K1].
+    assert (B1 : blocked p (dsk s1) = blocked p (dsk s)).
+    { apply blocked_ext. intros q N. unfold has. rewrite (K1 q N). tauto. }
     destruct (prim false s1) as [f2 s2] eqn:P2. apply prim_spec in P2 as [D2 F2].
-    destruct f2.
-    { intro H; inversion H; subst. split; [eapply fsop_trans; eassumption|].
+    assert (F02 : fsop s s2 (negb f2)) by (eapply fsop_trans; eassumption).
+    rewrite D2.
+    destruct (f2 || file_above p (dsk s1)) eqn:C2.
+    { intro H; inversion H; subst. split; [eapply fsop_fsopw; exact F02|].
+      split.
+      { intro Q. destruct F02 as (_ & _ & Q2 & _). destruct (Q2 Q) as [Hf _].
+        apply negb_true_iff in Hf. subst f2. cbn [orb] in C2.
+        rewrite <- B1. unfold blocked. rewrite C2. reflexivity. }
+      split.
+      { intros _. destruct f2.
+        - left. destruct F02 as (_ & _ & _ & N2). apply N2; reflexivity.
+        - right. cbn [orb] in C2. rewrite <- B1. unfold blocked. rewrite C2. reflexivity. }
       split; [discriminate|]. intros q Hq. rewrite D2. auto. }
+    apply orb_false_iff in C2 as [-> A2]. cbn [negb] in F02.
     destruct (prim false s2) as [f3 s3] eqn:P3. apply prim_spec in P3 as [D3 F3].
-    destruct f3.
-    { intro H; inversion H; subst. split; [eapply fsop_trans; [|eassumption]; eapply fsop_trans; eassumption|].
+    assert (F03 : fsop s s3 (negb f3)) by (eapply fsop_trans; eassumption).
+    rewrite D3, D2.
+    destruct (f3 || is_dir p (dsk s1)) eqn:C3.
+    { intro H; inversion H; subst. split; [eapply fsop_fsopw; exact F03|].
+      split.
+      { intro Q. destruct F03 as (_ & _ & Q3 & _). destruct (Q3 Q) as [Hf _].
+        apply negb_true_iff in Hf. subst f3. cbn [orb] in C3.
+        rewrite <- B1. unfold blocked. rewrite C3, orb_true_r. reflexivity. }
+      split.
+      { intros _. destruct f3.
+        - left. destruct F03 as (_ & _ & _ & N3). apply N3; reflexivity.
+        - right. cbn [orb] in C3. rewrite <- B1. unfold blocked. rewrite C3, orb_true_r. reflexivity. }
       split; [discriminate|]. intros q Hq. rewrite D3, D2. auto. }
+    apply orb_false_iff in C3 as [-> A3]. cbn [negb] in F03.
+    assert (NB : blocked p (dsk s) = false) by (rewrite <- B1; unfold blocked; rewrite A2, A3; reflexivity).
     destruct (prim false (with_disk B (set p empty) s3)) as [f4 s4] eqn:P4.
     apply prim_spec in P4 as [D4 F4]. apply fsop_with_disk_l in F4.
-    assert (F04 : fsop s s4 (negb f4)).
-    { eapply fsop_trans; [|exact F4]. eapply fsop_trans; [|exact F3]. eapply fsop_trans; eassumption. }
+    assert (F04 : fsop s s4 (negb f4)) by (eapply fsop_trans; eassumption).
     destruct f4; intro H; inversion H; subst; clear H.
-    - split; [apply fsop_with_disk; exact F04|]. split; [discriminate|].
+    - split; [apply (fsop_fsopw _ _ false), fsop_with_disk; exact F04|].
+      split; [intro Q; destruct F04 as (_ & _ & Q4 & _); destruct (Q4 Q); discriminate|].
+      split; [intros _; left; destruct F04 as (_ & _ & _ & N4); cbn [flt with_disk]; apply N4; reflexivity|].
+      split; [discriminate|].
       intros q Hq. cbn [dsk with_disk]. rewrite lookup_set.
       destruct (path_eqb q p) eqn:E; [apply path_eqb_eq in E; congruence|].
       rewrite D4; cbn [dsk with_disk]. rewrite lookup_set, E, D3, D2. auto.
-    - split; [apply fsop_with_disk; exact F04|]. split.
+    - split; [apply (fsop_fsopw _ _ true), fsop_with_disk; exact F04|].
+      split; [intros _; rewrite NB; reflexivity|]. split; [discriminate|]. split.
       + intros _ q. cbn [dsk with_disk]. rewrite !lookup_set.
         destruct (path_eqb q p) eqn:E; [reflexivity|].
         rewrite D4; cbn [dsk with_disk]. rewrite lookup_set, E, D3, D2. apply K1. apply path_eqb_neq; exact E.
@@ -370,22 +498,58 @@ Section Steps.
         rewrite D4; cbn [dsk with_disk]. rewrite lookup_set, E, D3, D2. auto.
   Qed.
 
+  (* a store can only add its own key *)
+  Lemma store_has p c s ok s' q : store p c s = (ok, s') -> has q (dsk s') -> q = p \/ has q (dsk s).
+  Proof.
+    intros R H. apply store_spec in R as (_ & _ & _ & _ & K).
+    destruct (path_eq_dec q p) as [E|N]; [left; exact E|right]. unfold has in *. rewrite <- (K q N). exact H.
+  Qed.
+
   Lemma store_all_spec l : forall s ok s',
     store_all l s = (ok, s') ->
-    fsop s s' ok /\
+    fsopw s s' /\
     (ok = true -> deq (dsk s') (apply_list B l (dsk s))) /\
     (forall q, ~ In q (map fst l) -> lookup q (dsk s') = lookup q (dsk s)).
   Proof.
     induction l as [|[p c] l IH]; intros s ok s'; cbn.
-    - intro H; inversion H; subst. split; [apply fsop_refl|]. split; [intros _; apply deq_refl|auto].
-    - destruct (store p c s) as [ok1 s1] eqn:S1. apply store_spec in S1 as (F1 & E1 & K1).
+    - intro H; inversion H; subst. split; [apply fsopw_refl|]. split; [intros _; apply deq_refl|auto].
+    - destruct (store p c s) as [ok1 s1] eqn:S1. apply store_spec in S1 as (F1 & _ & _ & E1 & K1).
       destruct ok1.
       + intro H. apply IH in H as (F2 & E2 & K2).
-        split; [eapply fsop_trans; eassumption|]. split.
+        split; [eapply fsopw_trans; eassumption|]. split.
         * intro Hok. eapply deq_trans; [apply E2; exact Hok|]. apply apply_list_ext. apply E1; reflexivity.
         * intros q Hq. rewrite K2 by tauto. apply K1. intro; subst; tauto.
       + intro H; inversion H; subst. split; [exact F1|]. split; [discriminate|].
         intros q Hq. apply K1. intro; subst; tauto.
+  Qed.
+
+  (* a sequence of stores none of which can be blocked: every key it writes is
+     compatible with every key of [K], and the disk holds keys of [K] only.
+     Without fault it succeeds; when it fails the oracle has struck. *)
+  Lemma store_all_unblocked (K : path -> Prop) l : forall s ok s',
+    store_all l s = (ok, s') ->
+    (forall q, has q (dsk s) -> K q) ->
+    (forall p, In p (map fst l) -> K p /\ forall q, K q -> q <> p -> under p q = false /\ under q p = false) ->
+    (flt s = NoFault -> ok = true) /\ (ok = false -> flt s' = NoFault).
+  Proof.
+    induction l as [|[p c] l IH]; intros s ok s'; cbn [Model.store_all].
+    - intros H _ _; inversion H; subst. split; [reflexivity|discriminate].
+    - destruct (store p c s) as [ok1 s1] eqn:S1. intros R HK HC.
+      pose proof (fun q => store_has _ _ _ _ _ q S1) as Hhas.
+      apply store_spec in S1 as ((_ & _ & Q1) & D1 & N1 & _ & _).
+      assert (NB : blocked p (dsk s) = false).
+      { destruct (blocked p (dsk s)) eqn:Bp; [|reflexivity]. exfalso.
+        apply blocked_spec in Bp as (q & Hq & N & U).
+        destruct (HC p (or_introl eq_refl)) as [_ C]. destruct (C q (HK q Hq) N) as [U1 U2].
+        destruct U as [U|U]; congruence. }
+      destruct ok1.
+      + assert (HK1 : forall q, has q (dsk s1) -> K q).
+        { intros q Hq. destruct (Hhas q Hq) as [->|H]; [apply (HC p); left; reflexivity|apply HK; exact H]. }
+        destruct (IH _ _ _ R HK1 (fun p' Hp' => HC p' (or_intror Hp'))) as [A1 A2].
+        split; [intro Q; apply A1, Q1, Q|exact A2].
+      + inversion R; subst. split.
+        * intro Q. rewrite (D1 Q), NB. reflexivity.
+        * intros _. destruct (N1 eq_refl) as [N|N]; [exact N|congruence].
   Qed.
 
   Lemma remove_all_spec hook l : forall s ok s',
@@ -416,80 +580,241 @@ Section Steps.
     - intro H; exists q; split; [exact H|apply path_eqb_refl].
   Qed.
 
+  (* ---- the contents met by a run ----
+     Restore compares digests.  The digest is only assumed injective on the
+     contents a run can meet ([met]): those of the disk before the update, of
+     the payload, of a freshly created file and what a failing write leaves
+     behind.  [dmet d]: every content stored on [d] is one of them. *)
+  Variable met : B -> Prop.
+
+  Definition dmet (d : disk B) : Prop := Forall (fun e => met (snd e)) d.
+
+  Lemma dmet_del p d : dmet d -> dmet (del p d).
+  Proof.
+    unfold dmet, del. intro H. apply Forall_forall. intros e He. apply filter_In in He as [He _].
+    rewrite Forall_forall in H. apply H; exact He.
+  Qed.
+
+  Lemma dmet_set p c d : met c -> dmet d -> dmet (set p c d).
+  Proof. intros Hc H. unfold set. constructor; [exact Hc|apply dmet_del; exact H]. Qed.
+
+  Lemma dmet_lookup d p c : dmet d -> lookup p d = Some c -> met c.
+  Proof.
+    intros H L. apply lookup_In in L. unfold dmet in H. rewrite Forall_forall in H.
+    apply (H _ L).
+  Qed.
+
+  Lemma dmet_filter f d : dmet d -> dmet (filter f d).
+  Proof.
+    unfold dmet. intro H. apply Forall_forall. intros e He. apply filter_In in He as [He _].
+    rewrite Forall_forall in H. apply H; exact He.
+  Qed.
+
+  Lemma dmet_normalize d : dmet d -> dmet (normalize d).
+  Proof.
+    induction d as [|[q c] r IH]; cbn [normalize]; intro H; [constructor|].
+    inversion H; subst. constructor; [assumption|]. apply dmet_del. apply IH. assumption.
+  Qed.
+
+  Lemma dmet_snapshot d : dmet d -> dmet (snapshot d).
+  Proof. intro H. unfold snapshot. apply dmet_filter, dmet_normalize, H. Qed.
+
+  Lemma dmet_perm a b : Permutation a b -> dmet a -> dmet b.
+  Proof. unfold dmet. intros P H. eapply Permutation_Forall; eassumption. Qed.
+
+  Lemma prim_dsk hook s f s1 : prim hook s = (f, s1) -> dsk s1 = dsk s.
+  Proof. intro P. apply prim_spec in P as [Hd _]. exact Hd. Qed.
+
+  Lemma p_remove_dmet hook p s ok s' : p_remove hook p s = (ok, s') -> dmet (dsk s) -> dmet (dsk s').
+  Proof.
+    intros R H. apply p_remove_spec in R as (_ & Ht & Hf).
+    destruct ok; [rewrite Ht by reflexivity; apply dmet_del; exact H|rewrite Hf by reflexivity; exact H].
+  Qed.
+
+  Hypothesis met_empty : met empty.
+  Hypothesis met_garbage : met garbage.
+
+  Lemma store_dmet p c s ok s' :
+    store p c s = (ok, s') -> met c -> dmet (dsk s) -> dmet (dsk s').
+  Proof.
+    unfold Model.store. intros R Hc H.
+    destruct (prim true s) as [f0 s0] eqn:P0. apply prim_dsk in P0.
+    destruct f0; [inversion R; subst; rewrite P0; exact H|].
+    destruct (p_remove true p s0) as [okr s1] eqn:P1. apply p_remove_dmet in P1; [|rewrite P0; exact H].
+    destruct (prim false s1) as [f2 s2] eqn:P2. apply prim_dsk in P2.
+    destruct (f2 || file_above p (dsk s2)); [inversion R; subst; rewrite P2; exact P1|].
+    destruct (prim false s2) as [f3 s3] eqn:P3. apply prim_dsk in P3.
+    destruct (f3 || is_dir p (dsk s3)); [inversion R; subst; rewrite P3, P2; exact P1|].
+    destruct (prim false (with_disk B (set p empty) s3)) as [f4 s4] eqn:P4. apply prim_dsk in P4.
+    cbn [dsk with_disk] in P4.
+    assert (H3 : dmet (dsk s3)) by (rewrite P3, P2; exact P1).
+    destruct f4; inversion R; subst; cbn [dsk with_disk]; rewrite P4;
+      apply dmet_set; try assumption; apply dmet_set; assumption.
+  Qed.
+
+  Lemma store_all_dmet l : forall s ok s',
+    store_all l s = (ok, s') -> dmet l -> dmet (dsk s) -> dmet (dsk s').
+  Proof.
+    induction l as [|[p c] l IH]; intros s ok s'; cbn [Model.store_all].
+    - intros R _ H; inversion R; subst; exact H.
+    - destruct (store p c s) as [ok1 s1] eqn:S1. intros R Hl H. inversion Hl; subst.
+      apply store_dmet in S1; [|assumption|exact H].
+      destruct ok1; [eapply IH; eassumption|inversion R; subst; exact S1].
+  Qed.
+
+  Lemma remove_all_dmet hook l : forall s ok s',
+    remove_all hook l s = (ok, s') -> dmet (dsk s) -> dmet (dsk s').
+  Proof.
+    induction l as [|p l IH]; intros s ok s'; cbn [Model.remove_all].
+    - intros R H; inversion R; subst; exact H.
+    - destruct (p_remove hook p s) as [ok1 s1] eqn:S1. intros R H.
+      apply p_remove_dmet in S1; [|exact H].
+      destruct ok1; [eapply IH; eassumption|inversion R; subst; exact S1].
+  Qed.
+
+  Lemma clean_all_dmet hint s ok s' : clean_all hint s = (ok, s') -> dmet (dsk s) -> dmet (dsk s').
+  Proof.
+    unfold Model.clean_all. intros R H.
+    destruct (remove_all false _ s) as [ok1 s1] eqn:R1. apply remove_all_dmet in R1; [|exact H].
+    destruct ok1; [eapply remove_all_dmet; eassumption|inversion R; subst; exact R1].
+  Qed.
+
+  Lemma save_all_dmet fixed l : forall s ok s',
+    save_all fixed l s = (ok, s') -> Forall (fun x => met (snd (fst x))) l -> dmet (dsk s) -> dmet (dsk s').
+  Proof.
+    induction l as [|x l IH]; intros s ok s'; cbn [Model.save_all].
+    - intros R _ H; inversion R; subst; exact H.
+    - intros R Hl H. inversion Hl; subst.
+      destruct (refused B fixed x); [inversion R; subst; exact H|].
+      destruct (store (ikey B x) (snd (fst x)) s) as [ok1 s1] eqn:S1.
+      apply store_dmet in S1; [|assumption|exact H].
+      destruct ok1; [eapply IH; eassumption|inversion R; subst; exact S1].
+  Qed.
+
   (* ---- Restore ---- *)
   Hypothesis D_eqb_spec : forall a b, D_eqb a b = true <-> a = b.
-  Hypothesis digest_inj : forall a b, digest a = digest b -> a = b.
+  Hypothesis digest_inj : forall a b, met a -> met b -> digest a = digest b -> a = b.
 
-  Lemma restore_spec hint d0 s ok s' :
-    restore hint (snapshot d0) s = (ok, s') ->
-    fsop s s' ok /\
-    (ok = true -> forall p, lookup p (dsk s') = if covered p then lookup p d0 else lookup p (dsk s)) /\
-    (forall p, covered p = false -> lookup p (dsk s') = lookup p (dsk s)).
+  (* removing never adds a file *)
+  Lemma p_remove_has hook p s ok s' q : p_remove hook p s = (ok, s') -> has q (dsk s') -> has q (dsk s).
   Proof.
-    unfold Model.restore.
+    intros R H. apply p_remove_spec in R as (_ & Ht & Hf). unfold has in *.
+    destruct ok; [|rewrite Hf in H by reflexivity; exact H].
+    rewrite Ht, lookup_del in H by reflexivity. destruct (path_eqb p q); [congruence|exact H].
+  Qed.
+
+  Lemma remove_all_has hook l : forall s ok s' q,
+    remove_all hook l s = (ok, s') -> has q (dsk s') -> has q (dsk s).
+  Proof.
+    induction l as [|p l IH]; intros s ok s' q; cbn [Model.remove_all].
+    - intros R H; inversion R; subst; exact H.
+    - destruct (p_remove hook p s) as [ok1 s1] eqn:S1. intros R H.
+      destruct ok1.
+      + apply (p_remove_has _ _ _ _ _ _ S1). apply (IH _ _ _ _ R H).
+      + inversion R; subst. apply (p_remove_has _ _ _ _ _ _ S1 H).
+  Qed.
+
+  (* Restore, strays first (the gateway after fix-F-C08j) *)
+  Lemma restore_spec hint d0 s ok s' :
+    dmet d0 -> dmet (dsk s) ->
+    restore true hint (snapshot d0) s = (ok, s') ->
+    fsopw s s' /\
+    (ok = true -> forall p, lookup p (dsk s') = if covered p then lookup p d0 else lookup p (dsk s)) /\
+    (forall p, covered p = false -> lookup p (dsk s') = lookup p (dsk s)) /\
+    (* when the disk that was backed up is a tree and nothing was added outside
+       the snapshot, no write of the roll-back can be blocked: it fails only
+       by the oracle *)
+    (tree under d0 -> (forall q, covered q = false -> has q (dsk s) -> has q d0) ->
+     (flt s = NoFault -> ok = true) /\ (ok = false -> flt s' = NoFault)).
+  Proof.
+    intros M0 Ms. unfold Model.restore.
     destruct (prim false s) as [f s1] eqn:P. apply prim_spec in P as [D1 F1].
     destruct f.
-    { intro H; inversion H; subst. split; [exact F1|]. split; [discriminate|]. intros; congruence. }
+    { intro H; inversion H; subst. split; [eapply fsop_fsopw; exact F1|]. split; [discriminate|].
+      split; [intros; congruence|]. intros _ _. destruct F1 as (_ & _ & Q1 & N1). split.
+      - intro Q. destruct (Q1 Q); discriminate.
+      - intros _. apply N1. reflexivity. }
+    cbn [negb] in F1.
     set (bk := snapshot d0). set (cur := snapshot (dsk s1)).
     set (todo := filter (fun e => negb (same_digest B D digest D_eqb (lookup (fst e) cur) (snd e))) bk).
     set (strays := filter (fun e => negb (has_key B (fst e) bk)) cur).
-    destruct (store_all (arrange fst (skipn (hk s1) hint) todo) s1) as [ok1 s2] eqn:SA.
-    apply store_all_spec in SA as (F2 & E2 & K2).
     assert (Hbk : NoDup (map fst bk)) by apply NoDup_snapshot.
     assert (Htodo : NoDup (map fst todo)) by (apply NoDup_keys_filter; exact Hbk).
     assert (Hcur : NoDup (map fst cur)) by apply NoDup_snapshot.
-    assert (todo_cov : forall q, In q (map fst todo) -> covered q = true).
+    assert (todo_bk : forall q, In q (map fst todo) -> covered q = true /\ has q d0).
     { intros q Hq. apply in_map_iff in Hq as [[q' c] [<- He]]. apply filter_In in He as [He _].
       cbn. pose proof (In_lookup bk q' c Hbk He) as L. unfold bk in L. rewrite lookup_snapshot in L.
-      destruct (covered q'); [reflexivity|discriminate]. }
-    assert (arr_keys : forall q, In q (map fst (arrange fst (skipn (hk s1) hint) todo)) <-> In q (map fst todo)).
-    { intro q. split; intro H.
-      - eapply Permutation_in; [apply Permutation_map, Permutation_sym, arrange_perm|exact H].
-      - eapply Permutation_in; [apply Permutation_map, arrange_perm|exact H]. }
-    destruct ok1.
-    2:{ intro H; inversion H; subst. split; [eapply fsop_trans; eassumption|]. split; [discriminate|].
-        intros p Hp. rewrite K2, D1; [reflexivity|]. intro Hin. apply arr_keys, todo_cov in Hin. congruence. }
-    intro RA. apply remove_all_spec in RA as (F3 & E3 & K3).
+      unfold has. destruct (covered q'); [split; [reflexivity|congruence]|discriminate]. }
     assert (stray_cov : forall q, In q (map fst strays) -> covered q = true /\ lookup q bk = None).
     { intros q Hq. apply in_map_iff in Hq as [[q' c] [<- He]]. apply filter_In in He as [He Hk].
       cbn in *. pose proof (In_lookup cur q' c Hcur He) as L. unfold cur in L. rewrite lookup_snapshot in L.
       split; [destruct (covered q'); [reflexivity|discriminate]|].
       unfold has_key in Hk. destruct (lookup q' bk); [discriminate|reflexivity]. }
-    assert (arr2 : forall q l, In q (arrange (fun p => p) l (map fst strays)) <-> In q (map fst strays)).
+    assert (arr1 : forall q l, In q (arrange (fun p => p) l (map fst strays)) <-> In q (map fst strays)).
     { intros q l. split; intro H.
       - eapply Permutation_in; [apply Permutation_sym, arrange_perm|exact H].
       - eapply Permutation_in; [apply arrange_perm|exact H]. }
-    split; [eapply fsop_trans; [|exact F3]; eapply fsop_trans; eassumption|].
-    split.
-    - intros Hok p. rewrite E3 by exact Hok.
-      destruct (existsb (path_eqb p) _) eqn:Ex.
-      + (* a stray: removed *)
-        apply existsb_path_In, arr2, stray_cov in Ex as [Hc Hb]. rewrite Hc.
-        unfold bk in Hb. rewrite lookup_snapshot, Hc in Hb. auto.
-      + assert (Hns : ~ In p (map fst strays)).
-        { intro H. apply (arr2 p (skipn (hk s2) hint)), existsb_path_In in H. congruence. }
-        rewrite (E2 eq_refl p).
-        rewrite (lookup_apply_list _ (dsk s1) p).
-        2:{ eapply Permutation_NoDup; [apply Permutation_map, arrange_perm|exact Htodo]. }
-        rewrite <- (lookup_perm todo _ p (arrange_perm fst _ todo) Htodo).
-        unfold todo. rewrite (lookup_filter_nodup _ bk p Hbk). cbn [fst snd].
-        unfold bk at 1. rewrite lookup_snapshot.
-        assert (Lcur : lookup p cur = if covered p then lookup p (dsk s1) else None)
-          by (unfold cur; apply lookup_snapshot).
-        destruct (covered p) eqn:Hc; [|rewrite D1; reflexivity].
-        destruct (lookup p d0) as [c|] eqn:L0.
-        * destruct (same_digest B D digest D_eqb (lookup p cur) c) eqn:SD; cbn [negb]; [|reflexivity].
-          unfold same_digest in SD. rewrite Lcur in SD.
-          destruct (lookup p (dsk s1)) as [c'|]; [|discriminate].
-          apply D_eqb_spec, digest_inj in SD. subst; reflexivity.
-        * destruct (lookup p (dsk s1)) as [c'|] eqn:L1; [|reflexivity].
-          exfalso. apply Hns. apply in_map_iff. exists (p, c'). split; [reflexivity|].
-          unfold strays. apply filter_In. split.
-          -- apply lookup_In. exact Lcur.
-          -- cbn [fst]. unfold has_key, bk. rewrite lookup_snapshot, Hc, L0. reflexivity.
+    assert (arr2 : forall q l, In q (map fst (arrange fst l todo)) <-> In q (map fst todo)).
+    { intros q l. split; intro H.
+      - eapply Permutation_in; [apply Permutation_map, Permutation_sym, arrange_perm|exact H].
+      - eapply Permutation_in; [apply Permutation_map, arrange_perm|exact H]. }
+    destruct (remove_all true (arrange (fun p => p) (skipn (hk s1) hint) (map fst strays)) s1) as [ok1 s2] eqn:RA.
+    pose proof (fun q => remove_all_has _ _ _ _ _ q RA) as H2.
+    apply remove_all_spec in RA as (F2 & E2 & K2).
+    assert (F02 : fsop s s2 ok1) by (eapply fsop_trans; eassumption).
+    destruct ok1.
+    2:{ intro H; inversion H; subst. split; [eapply fsop_fsopw; exact F02|]. split; [discriminate|].
+        split.
+        - intros p Hp. rewrite K2, D1; [reflexivity|]. intro Hin. apply arr1, stray_cov in Hin as [Hc _]. congruence.
+        - intros _ _. destruct F02 as (_ & _ & Q2 & N2). split.
+          + intro Q. destruct (Q2 Q); discriminate.
+          + intros _. apply N2; reflexivity. }
+    specialize (E2 eq_refl).
+    assert (Lcur : forall p, lookup p cur = if covered p then lookup p (dsk s1) else None)
+      by (intro p; unfold cur; apply lookup_snapshot).
+    (* what is left after the strays are gone *)
+    assert (L2 : forall p, lookup p (dsk s2) =
+                           if covered p then match lookup p d0 with Some _ => lookup p (dsk s1) | None => None end
+                           else lookup p (dsk s1)).
+    { intro p. rewrite E2. destruct (existsb (path_eqb p) _) eqn:Ex.
+      - apply existsb_path_In, arr1, stray_cov in Ex as [Hc Hb]. rewrite Hc.
+        unfold bk in Hb. rewrite lookup_snapshot, Hc in Hb. rewrite Hb. reflexivity.
+      - assert (Hns : ~ In p (map fst strays)).
+        { intro H. apply (arr1 p (skipn (hk s1) hint)), existsb_path_In in H. congruence. }
+        destruct (covered p) eqn:Hc; [|reflexivity].
+        destruct (lookup p d0) eqn:L0; [reflexivity|].
+        destruct (lookup p (dsk s1)) as [c'|] eqn:L1; [|reflexivity].
+        exfalso. apply Hns. apply in_map_iff. exists (p, c'). split; [reflexivity|].
+        unfold strays. apply filter_In. split.
+        + apply lookup_In. rewrite Lcur, Hc. exact L1.
+        + cbn [fst]. unfold has_key, bk. rewrite lookup_snapshot, Hc, L0. reflexivity. }
+    intro SA. pose proof SA as SA'. apply store_all_spec in SA as (F3 & E3 & K3).
+    split; [eapply fsopw_trans; [eapply fsop_fsopw; exact F02|exact F3]|]. split; [|split].
+    - intros Hok p. rewrite (E3 Hok p).
+      rewrite (lookup_apply_list _ (dsk s2) p).
+      2:{ eapply Permutation_NoDup; [apply Permutation_map, arrange_perm|exact Htodo]. }
+      rewrite <- (lookup_perm todo _ p (arrange_perm fst _ todo) Htodo).
+      unfold todo. rewrite (lookup_filter_nodup _ bk p Hbk). cbn [fst snd].
+      unfold bk at 1. rewrite lookup_snapshot, L2.
+      destruct (covered p) eqn:Hc; [|rewrite D1; reflexivity].
+      destruct (lookup p d0) as [c|] eqn:L0; [|reflexivity].
+      destruct (same_digest B D digest D_eqb (lookup p cur) c) eqn:SD; cbn [negb]; [|reflexivity].
+      unfold same_digest in SD. rewrite Lcur, Hc in SD.
+      destruct (lookup p (dsk s1)) as [c'|] eqn:L1; [|discriminate].
+      apply D_eqb_spec, digest_inj in SD; [subst; reflexivity| |].
+      + eapply dmet_lookup; [|exact L1]. rewrite D1; exact Ms.
+      + eapply dmet_lookup; [exact M0|exact L0].
     - intros p Hp. rewrite K3.
-      + rewrite K2, D1; [reflexivity|]. intro Hin. apply arr_keys, todo_cov in Hin. congruence.
-      + intro Hin. apply arr2, stray_cov in Hin as [Hc _]. congruence.
+      + rewrite L2, Hp, D1. reflexivity.
+      + intro Hin. apply arr2, todo_bk in Hin as [Hc _]. congruence.
+    - intros T U.
+      destruct (store_all_unblocked (fun q => has q d0) _ _ _ _ SA') as [A1 A2].
+      + intros q Hq. unfold has in Hq. rewrite L2 in Hq. destruct (covered q) eqn:Hc.
+        * unfold has. destruct (lookup q d0); [discriminate|contradiction].
+        * apply U; [exact Hc|]. unfold has. rewrite <- D1. exact Hq.
+      + intros p Hp. apply arr2, todo_bk in Hp as [_ Hp]. split; [exact Hp|].
+        intros q Hq N. split; apply T; assumption.
+      + destruct F02 as (_ & _ & Q2 & _). split; [intro Q; apply A1; apply (Q2 Q)|exact A2].
   Qed.
 
   (* ---- CleanAll ---- *)
@@ -786,33 +1111,49 @@ Section Steps.
   Definition rejects (fixed : bool) (l : list (item B)) : Prop :=
     fixed = true /\ exists x, In x l /\ snd x = true.
 
-  Lemma save_all_spec fixed l : forall s ok s',
+  (* the save met a name that makes a file of a directory or a directory of a
+     file: its target lies below or above another file among [K] *)
+  Definition blocks (K : path -> Prop) (l : list (item B)) : Prop :=
+    exists x q, In x l /\ K q /\ q <> ikey B x /\
+                (under (ikey B x) q = true \/ under q (ikey B x) = true).
+
+  Lemma fsopw_within s s' : fsopw s s' -> within (fun e => e = eng s) s s'.
+  Proof. intros (_ & X & _). exact X. Qed.
+
+  Lemma save_all_spec fixed (K : path -> Prop) l : forall s ok s',
     save_all fixed l s = (ok, s') ->
+    (forall q, has q (dsk s) -> K q) ->
+    (forall x, In x l -> refused B fixed x = false -> K (ikey B x)) ->
     eng s' = eng s /\ within (fun e => e = eng s) s s' /\
     (flt s = NoFault -> flt s' = NoFault) /\
-    (ok = false -> flt s' = NoFault \/ rejects fixed l) /\
+    (ok = false -> flt s' = NoFault \/ rejects fixed l \/ blocks K l) /\
     (ok = true -> (forall x, In x l -> refused B fixed x = false) /\
                   deq (dsk s') (apply_list B (map fst l) (dsk s))) /\
     (forall q, (forall x, In x l -> refused B fixed x = false -> ikey B x <> q) ->
                lookup q (dsk s') = lookup q (dsk s)).
   Proof.
     induction l as [|x l IH]; intros s ok s'; cbn [Model.save_all].
-    - intro H; inversion H; subst. split; [reflexivity|]. split; [apply within_refl|]. split; [auto|].
+    - intros H _ _; inversion H; subst. split; [reflexivity|]. split; [apply within_refl|]. split; [auto|].
       split; [discriminate|]. split; [intros _; split; [intros x []|apply deq_refl]|auto].
     - destruct (refused B fixed x) eqn:Rf.
-      { intro H; inversion H; subst. split; [reflexivity|]. split; [apply within_refl|]. split; [auto|].
+      { intros H _ _; inversion H; subst. split; [reflexivity|]. split; [apply within_refl|]. split; [auto|].
         split; [|split; [discriminate|auto]].
-        intros _. right. unfold refused in Rf. apply andb_true_iff in Rf as [Rf1 Rf2].
+        intros _. right. left. unfold refused in Rf. apply andb_true_iff in Rf as [Rf1 Rf2].
         split; [exact Rf1|]. exists x; split; [left; reflexivity|exact Rf2]. }
-      destruct (store (ikey B x) (snd (fst x)) s) as [ok1 s1] eqn:S1. apply store_spec in S1 as (F1 & E1 & K1).
-      pose proof (fsop_within _ _ _ F1) as W1. destruct F1 as (G1 & _ & Q1 & N1).
+      destruct (store (ikey B x) (snd (fst x)) s) as [ok1 s1] eqn:S1. intros H HK HI.
+      pose proof (fun q => store_has _ _ _ _ _ q S1) as Hhas.
+      apply store_spec in S1 as (F1 & _ & N1 & E1 & K1).
+      pose proof (fsopw_within _ _ F1) as W1. destruct F1 as (G1 & _ & Q1).
       destruct ok1.
-      + intro H. apply IH in H as (G2 & W2 & Q2 & N2 & D2 & K2).
+      + assert (HK1 : forall q, has q (dsk s1) -> K q).
+        { intros q Hq. destruct (Hhas q Hq) as [->|Hq']; [apply HI; [left; reflexivity|exact Rf]|apply HK; exact Hq']. }
+        destruct (IH _ _ _ H HK1 (fun y Hy => HI y (or_intror Hy))) as (G2 & W2 & Q2 & N2 & D2 & K2).
         split; [congruence|]. split.
         { eapply within_trans; [exact W1|]. eapply within_weaken; [|exact W2]. cbn; intros e ->; exact G1. }
         split; [intro Q; apply Q2, Q1; exact Q|]. split.
-        { intro Hok. destruct (N2 Hok) as [N|(Fx & y & Hy & Ey)]; [left; exact N|].
-          right. split; [exact Fx|]. exists y; split; [right; exact Hy|exact Ey]. }
+        { intro Hok. destruct (N2 Hok) as [N|[(Fx & y & Hy & Ey)|(y & q & Hy & Hq)]]; [left; exact N| |].
+          - right. left. split; [exact Fx|]. exists y; split; [right; exact Hy|exact Ey].
+          - right. right. exists y, q. split; [right; exact Hy|exact Hq]. }
         split.
         { intro Hok. destruct (D2 Hok) as [R2 D2']. split.
           - intros y [<-|Hy]; [exact Rf|apply R2; exact Hy].
@@ -822,27 +1163,34 @@ Section Steps.
             eapply deq_trans; [exact D2'|]. apply apply_list_ext. apply E1; reflexivity. }
         intros q Hq. rewrite K2 by (intros y Hy; apply Hq; right; exact Hy).
         apply K1. intro E. apply (Hq x); [left; reflexivity|exact Rf|symmetry; exact E].
-      + intro H; inversion H; subst. split; [exact G1|]. split; [exact W1|].
-        split; [intro Q; destruct (Q1 Q) as [X _]; discriminate|].
-        split; [intros _; left; apply N1; reflexivity|]. split; [discriminate|].
+      + inversion H; subst. split; [exact G1|]. split; [exact W1|].
+        split; [exact Q1|].
+        split.
+        { intros _. destruct (N1 eq_refl) as [N|Bl]; [left; exact N|right; right].
+          apply blocked_spec in Bl as (q & Hq & Nq & U). exists x, q.
+          split; [left; reflexivity|]. split; [apply HK; exact Hq|]. split; [exact Nq|exact U]. }
+        split; [discriminate|].
         intros q Hq. apply K1. intro E. apply (Hq x); [left; reflexivity|exact Rf|symmetry; exact E].
   Qed.
 
   Lemma rollback_spec hint d0 wr s r s' :
-    rollback hint (snapshot d0) wr s = (r, s') ->
+    dmet d0 -> dmet (dsk s) ->
+    rollback true hint (snapshot d0) wr s = (r, s') ->
     (forall p, covered p = false -> lookup p (dsk s') = lookup p (dsk s)) /\
     (r = Failed -> forall p, covered p = true -> lookup p (dsk s') = lookup p d0) /\
     within (fun e => e = eng s \/ (wr = true /\ e = EBuilt (dsk s'))) s s' /\
     (eng s' = eng s \/ (wr = true /\ eng s' = EBuilt (dsk s'))) /\
     (wr = true -> r = Failed -> eng s' = EBuilt (dsk s')) /\
     (flt s = NoFault ->
+     tree under d0 -> (forall q, covered q = false -> has q (dsk s) -> has q d0) ->
      (wr = true -> forall x, (forall p, lookup p x = if covered p then lookup p d0 else lookup p (dsk s)) ->
                              dsk s' = x -> valid x = true /\ metrics_ok x = true) ->
      r = Failed).
   Proof.
-    unfold Model.rollback.
-    destruct (restore hint (snapshot d0) s) as [ok1 s1] eqn:R. apply restore_spec in R as (F1 & E1 & K1).
-    pose proof (fsop_within _ _ _ F1) as W1. destruct F1 as (G1 & _ & Q1 & N1).
+    intros M0 Ms. unfold Model.rollback.
+    destruct (restore true hint (snapshot d0) s) as [ok1 s1] eqn:R.
+    apply restore_spec in R as (F1 & E1 & K1 & P1); [|exact M0|exact Ms].
+    pose proof (fsopw_within _ _ F1) as W1. destruct F1 as (G1 & _ & Q1).
     destruct wr.
     - destruct (reload s1) as [ok2 s2] eqn:L. pose proof (reload_spec _ _ _ L) as (O2 & B2).
       pose proof (engop_within _ _ O2) as W2. destruct O2 as (D2 & G2 & _ & Q2).
@@ -857,23 +1205,23 @@ Section Steps.
       split; [rewrite D2; destruct G2 as [G2|G2]; [left; congruence|right; auto]|].
       split.
       { intros _ HF. destruct ok1, ok2; try discriminate. rewrite D2. apply B2; reflexivity. }
-      intros Q HV. destruct (Q1 Q) as [-> Q1']. cbn [andb].
+      intros Q T U HV. destruct (P1 T U) as [A1 _]. rewrite (A1 Q) in *. cbn [andb].
       assert (Hx : forall p, lookup p (dsk s1) = if covered p then lookup p d0 else lookup p (dsk s))
         by (apply E1; reflexivity).
       destruct (HV eq_refl (dsk s1) Hx D2) as [V M].
-      destruct (reload_progress _ _ _ L V M) as [P _]. rewrite (P Q1'). reflexivity.
+      destruct (reload_progress _ _ _ L V M) as [P _]. rewrite (P (Q1 Q)). reflexivity.
     - intro H; inversion H; subst; clear H.
       split; [exact K1|]. split.
       { intros HF p Hp. destruct ok1; [|discriminate]. rewrite E1, Hp by reflexivity. reflexivity. }
       split; [eapply within_weaken; [|exact W1]; cbn; auto|].
       split; [left; exact G1|]. split; [discriminate|].
-      intros Q _. destruct (Q1 Q) as [-> _]. reflexivity.
+      intros Q T U _. destruct (P1 T U) as [A1 _]. rewrite (A1 Q). reflexivity.
   Qed.
 
-  Lemma rollback_not_ok hint bk wr s r s' :
-    rollback hint bk wr s = (r, s') -> r = Failed \/ r = RollbackFailed.
+  Lemma rollback_not_ok sf hint bk wr s r s' :
+    rollback sf hint bk wr s = (r, s') -> r = Failed \/ r = RollbackFailed.
   Proof.
-    unfold Model.rollback. destruct (restore hint bk s) as [ok1 s1]. destruct wr.
+    unfold Model.rollback. destruct (restore sf hint bk s) as [ok1 s1]. destruct wr.
     - destruct (reload s1) as [ok2 s2]. intro H; inversion H. destruct (ok1 && ok2); auto.
     - intro H; inversion H. destruct ok1; auto.
   Qed.
@@ -903,7 +1251,7 @@ Section Steps.
     rewrite (lookup_filter_key (fun k => negb (covered k))). destruct (covered p); reflexivity.
   Qed.
 
-  Notation run := (run B D digest D_eqb empty garbage valid metrics_ok).
+  Notation run := (run B D digest D_eqb empty garbage under valid metrics_ok).
 
   Lemma reload_ok_valid s s' :
     reload s = (true, s') -> valid (dsk s) = true /\ metrics_ok (dsk s) = true.
@@ -936,8 +1284,10 @@ Section Steps.
     (r = RollbackFailed ->
      (forall a b, ceq a b -> valid a = valid b) -> (forall a b, ceq a b -> metrics_ok a = metrics_ok b) ->
      valid d = true -> metrics_ok d = true ->
+     tree under d -> fixed = true \/ targets_covered (r_payload rq) = true ->
      f <> NoFault /\
-     ((fixed && names_escape (r_payload rq)) = true \/ valid dn = false \/ metrics_ok dn = false)).
+     ((fixed && names_escape (r_payload rq)) = true \/ type_conflict under (r_payload rq) d = true \/
+      valid dn = false \/ metrics_ok dn = false)).
 
   (* so far every transaction met the old engine *)
   Definition old_only (d : disk B) (s : st) : Prop :=
@@ -979,16 +1329,18 @@ Section Steps.
   (* a file-system step of the update failed (the oracle struck, or a file name
      was refused): roll back without reload *)
   Lemma outcome_fs_failure fixed hs hint rq d f s r s' k :
+    dmet d -> dmet (dsk s) ->
     old_only d s ->
-    flt s = NoFault \/ (fixed && names_escape (r_payload rq)) = true ->
+    flt s = NoFault \/ (fixed && names_escape (r_payload rq)) = true \/
+    type_conflict under (r_payload rq) d = true ->
     (f = NoFault -> flt s = NoFault) ->
     (fixed = true \/ targets_covered (r_payload rq) = true ->
      forall p, covered p = false -> lookup p (dsk s) = lookup p d) ->
-    rollback hint (snapshot d) false s = (r, s') ->
+    rollback true hint (snapshot d) false s = (r, s') ->
     outcome fixed hs rq d f r s' k.
   Proof.
-    intros O Q Qf U R. pose proof (rollback_not_ok _ _ _ _ _ _ R) as Rk.
-    apply rollback_spec in R as (A & Bc & W & G & _ & Fq).
+    intros Md Ms O Q Qf U R. pose proof (rollback_not_ok _ _ _ _ _ _ _ R) as Rk.
+    apply rollback_spec in R as (A & Bc & W & G & _ & Fq); [|exact Md|exact Ms].
     assert (O' : old_only d s').
     { destruct O as [Eo Ao]. destruct G as [G|[G _]]; [|discriminate]. split; [congruence|].
       destruct W as (x & S & Ax). rewrite S. apply Forall_app; split; [|exact Ao].
@@ -998,17 +1350,42 @@ Section Steps.
     split; [intros ->; split; [intros p Hp; apply Bc; auto|destruct O' as [-> _]; apply served_old]|].
     split; [intros _ T p Hp; rewrite A by exact Hp; apply U; assumption|].
     split; [intros ->; destruct Rk; discriminate|].
-    intros -> _ _ _ _.
+    intros -> _ _ _ _ T FC.
     assert (NF : flt s <> NoFault).
-    { intro Q0. assert (RollbackFailed = Failed) by (apply Fq; [exact Q0|discriminate]). discriminate. }
+    { intro Q0. assert (RollbackFailed = Failed); [|discriminate].
+      apply Fq; [exact Q0|exact T| |discriminate].
+      intros q Hc Hq. unfold has in *. rewrite <- (U FC q Hc). exact Hq. }
     split; [intro Hf; apply NF, Qf, Hf|].
-    destruct Q as [Q|Q]; [contradiction|left; exact Q].
+    destruct Q as [Q|[Q|Q]]; [contradiction|left; exact Q|right; left; exact Q].
+  Qed.
+
+  (* a save that was blocked names a file that conflicts with the disk or with
+     another file of the payload *)
+  Lemma blocks_type_conflict fixed hint (rq : request B) d :
+    blocks (fun q => In q (map fst d ++ map target (r_payload rq))) (plan B fixed hint (r_payload rq)) ->
+    type_conflict under (r_payload rq) d = true.
+  Proof.
+    intros (x & q & Hx & Hq & N & U). apply plan_In in Hx as (e & He & ->). cbn [ikey fst] in *.
+    unfold Model.type_conflict. apply existsb_exists. exists e. split; [exact He|].
+    apply existsb_exists. exists q. split; [exact Hq|]. apply andb_true_iff. split.
+    - apply negb_true_iff, path_eqb_neq. congruence.
+    - apply orb_true_iff. exact U.
+  Qed.
+
+  (* the contents written by the payload are among the contents met *)
+  Lemma plan_met fixed hint pl :
+    Forall (fun e => met (e_content e)) pl ->
+    Forall (fun x : item B => met (snd (fst x))) (plan B fixed hint pl).
+  Proof.
+    intro H. apply Forall_forall. intros x Hx. apply plan_In in Hx as (e & He & ->). cbn [fst snd].
+    rewrite Forall_forall in H. apply H; exact He.
   Qed.
 
   Lemma run_master fixed hs hint rq d f r s' :
-    run fixed hs hint rq d f = (r, s') -> exists k, outcome fixed hs rq d f r s' k.
+    dmet d -> Forall (fun e => met (e_content e)) (r_payload rq) ->
+    run fixed true hs hint rq d f = (r, s') -> exists k, outcome fixed hs rq d f r s' k.
   Proof.
-    unfold Model.run, Model.update.
+    intros MetD MetP. unfold Model.run, Model.update.
     set (si := init_state B d f).
     assert (Oi : old_only d si) by (split; [reflexivity|constructor]).
     destruct (r_method_ok rq); cbn [negb].
@@ -1027,25 +1404,38 @@ Section Steps.
     set (cl := match r_handler rq with HApplyFlows => clean_all hs s0 | HConfiguration => (true, s0) end).
     assert (C : exists okc s1, cl = (okc, s1) /\ fsop s0 s1 okc /\
                 (okc = true -> deq (dsk s1) (base (r_handler rq) d)) /\
-                (forall p, covered p = false -> lookup p (dsk s1) = lookup p d)).
+                (forall p, covered p = false -> lookup p (dsk s1) = lookup p d) /\
+                dmet (dsk s1)).
     { unfold cl. destruct (r_handler rq).
       - exists true, s0. split; [reflexivity|]. split; [apply fsop_refl|].
-        split; [intros _ p; rewrite D0; reflexivity|intros p _; rewrite D0; reflexivity].
+        split; [intros _ p; rewrite D0; reflexivity|].
+        split; [intros p _; rewrite D0; reflexivity|rewrite D0; exact MetD].
       - destruct (clean_all hs s0) as [okc s1] eqn:CA. exists okc, s1. split; [reflexivity|].
-        apply clean_all_spec in CA as (Fc & Ec & Kc). split; [exact Fc|]. split.
+        pose proof (clean_all_dmet _ _ _ _ CA) as Mc.
+        apply clean_all_spec in CA as (Fc & Ec & Kc). split; [exact Fc|]. split; [|split].
         + intros Hok p. rewrite Ec by exact Hok. rewrite lookup_base, D0. reflexivity.
-        + intros p Hp. rewrite Kc by exact Hp. rewrite D0. reflexivity. }
-    destruct C as (okc & s1 & -> & Fc & Ec & Kc).
+        + intros p Hp. rewrite Kc by exact Hp. rewrite D0. reflexivity.
+        + apply Mc. rewrite D0; exact MetD. }
+    destruct C as (okc & s1 & -> & Fc & Ec & Kc & MetS1).
     assert (F01 : fsop si s1 okc) by (eapply fsop_trans; eassumption).
     pose proof (fsop_old d _ _ _ Fc O0) as O1.
     destruct okc.
     2:{ intro R. exists 0.
         assert (N1 : flt s1 = NoFault) by (destruct Fc as (_ & _ & _ & N); apply N; reflexivity).
-        eapply outcome_fs_failure; [exact O1|left; exact N1|intros _; exact N1|intros _; exact Kc|exact R]. }
+        eapply outcome_fs_failure; [exact MetD|exact MetS1|exact O1|left; exact N1|intros _; exact N1|intros _; exact Kc|exact R]. }
     (* SavePayloadContentToDisk *)
     set (pln := plan B fixed (skipn (hk s1) hs) (r_payload rq)).
     destruct (save_all fixed pln s1) as [oks s2] eqn:SA.
-    apply save_all_spec in SA as (Gs & Ws & Qs & Ns & Ds & Ks).
+    assert (MetS2 : dmet (dsk s2)) by (eapply save_all_dmet; [exact SA|apply plan_met; exact MetP|exact MetS1]).
+    apply (save_all_spec fixed (fun q => In q (map fst d ++ map target (r_payload rq)))) in SA
+      as (Gs & Ws & Qs & Ns & Ds & Ks).
+    2:{ intros q Hq. apply in_or_app. left. apply has_In. unfold has in *.
+        destruct (covered q) eqn:Hc.
+        - rewrite (Ec eq_refl q), lookup_base in Hq. destruct (r_handler rq); [exact Hq|].
+          rewrite Hc in Hq. contradiction.
+        - rewrite (Kc q Hc) in Hq. exact Hq. }
+    2:{ intros x Hx _. apply plan_In in Hx as (e & He & ->). cbn [ikey fst].
+        apply in_or_app. right. apply in_map. exact He. }
     assert (Q02 : flt si = NoFault -> flt s2 = NoFault).
     { intro Q. apply Qs. destruct F01 as (_ & _ & Q1 & _). apply Q1; exact Q. }
     pose proof (within_old d _ _ Gs Ws O1) as O2.
@@ -1055,10 +1445,11 @@ Section Steps.
       intros x Hx Rf E. pose proof (plan_covered _ _ _ _ T Hx Rf) as C. congruence. }
     intro R0; exists (hk s1); revert R0.
     destruct oks.
-    2:{ intro R. eapply outcome_fs_failure; [exact O2| |exact Q02|exact U2|exact R].
-        destruct (Ns eq_refl) as [N|(Fx & x & Hx & Ex)]; [left; exact N|right].
-        apply plan_In in Hx as (e & He & ->). cbn [snd] in Ex. rewrite Fx. cbn [andb].
-        unfold names_escape. apply existsb_exists. exists e; auto. }
+    2:{ intro R. eapply outcome_fs_failure; [exact MetD|exact MetS2|exact O2| |exact Q02|exact U2|exact R].
+        destruct (Ns eq_refl) as [N|[(Fx & x & Hx & Ex)|Bl]]; [left; exact N|right; left|right; right].
+        - apply plan_In in Hx as (e & He & ->). cbn [snd] in Ex. rewrite Fx. cbn [andb].
+          unfold names_escape. apply existsb_exists. exists e; auto.
+        - eapply blocks_type_conflict. exact Bl. }
     destruct (Ds eq_refl) as [Rs Es].
     assert (NE : (fixed && names_escape (r_payload rq)) = false).
     { destruct fixed; [cbn [andb]|reflexivity].
@@ -1091,8 +1482,8 @@ Section Steps.
       split; [intro p; rewrite D3; apply Dn|]. split; [rewrite D3; apply B3; reflexivity|].
       rewrite D3. split; [assumption|]. split; assumption. }
     (* the reload failed: Restore, then reload again *)
-    intro R. pose proof (rollback_not_ok _ _ _ _ _ _ R) as Rk.
-    apply rollback_spec in R as (A & Bc & W & G & Eb & Fq).
+    intro R. pose proof (rollback_not_ok _ _ _ _ _ _ _ R) as Rk.
+    apply rollback_spec in R as (A & Bc & W & G & Eb & Fq); [|exact MetD|rewrite D3; exact MetS2].
     unfold outcome. cbn zeta. fold dn.
     assert (P3 : served d (eng s3) \/ served dn (eng s3)) by (apply P2; exact G3).
     split.
@@ -1108,7 +1499,9 @@ Section Steps.
     split.
     { intros _ T p Hp. rewrite A by exact Hp. rewrite D3. apply U2; assumption. }
     split; [intros ->; destruct Rk; discriminate|].
-    intros -> Vx Mx Vd Md.
+    intros -> Vx Mx Vd Md T FC.
+    assert (UK : forall q, covered q = false -> has q (dsk s3) -> has q d).
+    { intros q Hc Hq. unfold has in *. rewrite D3, (U2 FC q Hc) in Hq. exact Hq. }
     assert (restored_ok : forall x, (forall p, lookup p x = if covered p then lookup p d else lookup p (dsk s3)) ->
                                     valid x = true /\ metrics_ok x = true).
     { intros x Hx. assert (ceq x d) by (intros p Hp; rewrite Hx, Hp; reflexivity).
@@ -1117,9 +1510,9 @@ Section Steps.
     - (* without any fault the roll-back cannot fail *)
       intros ->. assert (Q2 : flt s2 = NoFault) by (apply Q02; reflexivity).
       assert (RollbackFailed = Failed); [|discriminate].
-      apply Fq; [apply Q3; exact Q2|]. intros _ x Hx _. apply restored_ok; exact Hx.
+      apply Fq; [apply Q3; exact Q2|exact T|exact UK|]. intros _ x Hx _. apply restored_ok; exact Hx.
     - (* with a payload that validates and loads, the reload failed by the fault, which is then spent *)
-      right.
+      right. right.
       destruct (valid dn) eqn:Vn; [|left; reflexivity].
       destruct (metrics_ok dn) eqn:Mn; [|right; reflexivity].
       exfalso.
@@ -1127,7 +1520,163 @@ Section Steps.
       assert (M2 : metrics_ok (dsk s2) = true) by (rewrite (Mx _ dn); [exact Mn|apply deq_ceq; exact Dn]).
       destruct (reload_progress _ _ _ RL V2 M2) as [_ Nf].
       assert (RollbackFailed = Failed); [|discriminate].
-      apply Fq; [apply Nf; reflexivity|]. intros _ x Hx _. apply restored_ok; exact Hx.
+      apply Fq; [apply Nf; reflexivity|exact T|exact UK|]. intros _ x Hx _. apply restored_ok; exact Hx.
   Qed.
 
 End Steps.
+
+(* ---------------------------------------------------------------- the order of the payload files *)
+
+Section Order.
+  Context {B : Type}.
+
+  Lemma three_way_perm {A} (f g : A -> bool) (l : list A) :
+    Permutation l (filter (fun x => negb (f x) && g x) l ++ filter f l
+                   ++ filter (fun x => negb (f x) && negb (g x)) l).
+  Proof.
+    induction l as [|x l IH]; cbn [filter]; [constructor|].
+    destruct (f x); cbn [negb andb].
+    - apply Permutation_cons_app. exact IH.
+    - destruct (g x); cbn [negb].
+      + cbn [app]. constructor. exact IH.
+      + rewrite app_assoc. apply Permutation_cons_app. rewrite <- app_assoc. exact IH.
+  Qed.
+
+  Lemma order_field_perm fixed hint (items : list (item B)) :
+    Permutation items (order_field B fixed hint items).
+  Proof.
+    unfold order_field.
+    eapply Permutation_trans; [apply (three_way_perm (refused B fixed) (hinted B hint))|].
+    apply Permutation_app_tail. apply arrange_perm.
+  Qed.
+
+  Definition as_item (e : entry B) : item B := (target e, e_content e, escapes e).
+
+  Lemma items_of_cons f e pl :
+    items_of B f (e :: pl) =
+    if field_eqb (e_field e) f then as_item e :: items_of B f pl else items_of B f pl.
+  Proof. unfold items_of. cbn [filter]. destruct (field_eqb (e_field e) f); reflexivity. Qed.
+
+  (* the files of a payload, field by field, are the files of the payload *)
+  Lemma items_partition (pl : list (entry B)) :
+    Permutation (map as_item pl) (flat_map (fun f => items_of B f pl) fields).
+  Proof.
+    induction pl as [|e pl IH]; [cbn; constructor|].
+    unfold fields in *. cbn [flat_map] in *. rewrite !items_of_cons. cbn [map].
+    destruct (e_field e); cbn [field_eqb].
+    - cbn [app]. constructor. exact IH.
+    - apply Permutation_cons_app. exact IH.
+    - rewrite (app_assoc (items_of B FFlows pl)). apply Permutation_cons_app.
+      rewrite <- app_assoc. exact IH.
+    - rewrite (app_assoc (items_of B FFlows pl)), (app_assoc (_ ++ _)). apply Permutation_cons_app.
+      rewrite <- !app_assoc. exact IH.
+    - rewrite (app_assoc (items_of B FFlows pl)), (app_assoc (_ ++ _)), (app_assoc (_ ++ _)).
+      apply Permutation_cons_app. rewrite <- !app_assoc. exact IH.
+  Qed.
+
+  Lemma plan_perm fixed hint (pl : list (entry B)) :
+    Permutation (map as_item pl) (plan B fixed hint pl).
+  Proof.
+    eapply Permutation_trans; [apply items_partition|].
+    unfold plan, fields. cbn [flat_map].
+    repeat (apply Permutation_app; [apply order_field_perm|]). constructor.
+  Qed.
+
+  (* when no two payload files go to the same place, the configuration the
+     payload describes does not depend on the order Go met them in *)
+  Lemma new_disk_order_irrelevant fixed h1 h2 (rq : request B) d :
+    NoDup (map target (r_payload rq)) ->
+    deq (new_disk B fixed h1 rq d) (new_disk B fixed h2 rq d).
+  Proof.
+    intros ND p. unfold new_disk.
+    assert (K : forall h, NoDup (map fst (map fst (plan B fixed h (r_payload rq))))).
+    { intro h. eapply Permutation_NoDup.
+      - apply Permutation_map, Permutation_map. apply (plan_perm fixed h).
+      - rewrite !map_map. cbn [as_item fst]. exact ND. }
+    rewrite !lookup_apply_list by apply K.
+    rewrite (lookup_perm (map fst (plan B fixed h1 (r_payload rq))) (map fst (plan B fixed h2 (r_payload rq))) p).
+    - reflexivity.
+    - apply Permutation_map. eapply Permutation_trans; [apply Permutation_sym, plan_perm|apply plan_perm].
+    - apply K.
+  Qed.
+
+End Order.
+
+(* ---------------------------------------------------------------- the oracles of the correspondence *)
+
+(* the verdict functions the correspondence suite instantiates the model with
+   depend only on the places the loader reads *)
+Lemma c_valid_spec bad (d : disk N) :
+  c_valid bad d = true <->
+  forall p c, lookup p d = Some c -> covered p = true ->
+              match fst p with
+              | AFlows | AQuotas | APathParams | AGateway => memN c bad = false
+              | _ => True
+              end.
+Proof.
+  unfold c_valid. rewrite forallb_forall. split.
+  - intros H p c L C. rewrite <- lookup_normalize in L. apply lookup_In in L.
+    specialize (H _ L). cbn [fst snd] in H. rewrite C in H.
+    destruct (fst p); try exact I; apply negb_true_iff in H; exact H.
+  - intros H [p c] Hin. cbn [fst snd].
+    apply In_lookup in Hin; [|apply NoDup_normalize]. rewrite lookup_normalize in Hin.
+    destruct (covered p) eqn:C; [|reflexivity].
+    specialize (H p c Hin C). destruct (fst p); try reflexivity; apply negb_true_iff; exact H.
+Qed.
+
+Lemma c_valid_covered bad (a b : disk N) :
+  (forall p, covered p = true -> lookup p a = lookup p b) -> c_valid bad a = c_valid bad b.
+Proof.
+  intro E.
+  assert (W : forall x y : disk N, (forall p, covered p = true -> lookup p x = lookup p y) ->
+                                   c_valid bad x = true -> c_valid bad y = true).
+  { intros x y Exy H. apply c_valid_spec. intros p c L C. rewrite <- (Exy p C) in L.
+    exact (proj1 (c_valid_spec bad x) H p c L C). }
+  destruct (c_valid bad a) eqn:Va.
+  - symmetry. apply (W a b E Va).
+  - destruct (c_valid bad b) eqn:Vb; [|reflexivity].
+    rewrite (W b a) in Va; [discriminate| |exact Vb]. intros p C. symmetry. apply E; exact C.
+Qed.
+
+Lemma c_metrics_ok_covered bad (a b : disk N) :
+  (forall p, covered p = true -> lookup p a = lookup p b) -> c_metrics_ok bad a = c_metrics_ok bad b.
+Proof. intro E. unfold c_metrics_ok. rewrite (E metrics_file) by reflexivity. reflexivity. Qed.
+
+(* ---------------------------------------------------------------- the contents met, as a list *)
+
+Section Contents.
+  Context {B D : Type}.
+  Variable digest : B -> D.
+  Variable D_eqb : D -> D -> bool.
+  Variable empty garbage : B.
+  Variable under : path -> path -> bool.
+  Variable valid metrics_ok : disk B -> bool.
+
+  (* every content a run on disk [d] with request [rq] can read or write *)
+  Definition contents_met (rq : request B) (d : disk B) : list B :=
+    empty :: garbage :: map snd d ++ map e_content (r_payload rq).
+
+  Definition injective_on (l : list B) : Prop :=
+    forall a b, In a l -> In b l -> digest a = digest b -> a = b.
+
+  Lemma run_master_contents fixed hs hint rq d f r s' :
+    (forall a b, D_eqb a b = true <-> a = b) ->
+    injective_on (contents_met rq d) ->
+    run B D digest D_eqb empty garbage under valid metrics_ok fixed true hs hint rq d f = (r, s') ->
+    exists k, outcome under valid metrics_ok fixed hs rq d f r s' k.
+  Proof.
+    intros Es Inj R.
+    apply (run_master digest D_eqb empty garbage under valid metrics_ok (fun c => In c (contents_met rq d)))
+      with (hint := hint).
+    - left; reflexivity.
+    - right; left; reflexivity.
+    - exact Es.
+    - exact Inj.
+    - unfold dmet. apply Forall_forall. intros e He. right; right. apply in_or_app. left.
+      apply in_map; exact He.
+    - apply Forall_forall. intros e He. right; right. apply in_or_app. right.
+      apply in_map; exact He.
+    - exact R.
+  Qed.
+
+End Contents.
